@@ -422,3 +422,103 @@ func worker(mu *sync.Mutex, c *sync.Cond, wg *sync.WaitGroup, p *uint64, d uint6
 	cp.Source = b.String()
 	return cp
 }
+
+// ConcurrentPathsPackage: the dimension "access path through which a synchronisation object is
+// reached". Every program has two locks (or a lock and a cond / waitgroup): the OUTER one is held by
+// the spawner across the join, the other one is reached through the path under test by the spawned
+// thread. A translation that resolves the path to the wrong object (the outer struct's same-named
+// field, a neighbouring slice element, ...) makes the two coincide: the emitted program deadlocks or
+// gets stuck on every interleaving while the Go program returns a schedule-independent value. goose
+// may reject a path (the case is then not compared).
+func ConcurrentPathsPackage(name string, layout int) *ConcPackage {
+	var b strings.Builder
+	fmt.Fprintf(&b, "package %s\n\nimport (\n\t\"sync\"\n)\n\n", name)
+	// field layout: where the synchronisation fields sit in their structs (a wrong descriptor or a wrong
+	// offset reads a neighbouring field)
+	syncI := "\tmu   *sync.Mutex\n\tcond *sync.Cond\n\twg   *sync.WaitGroup\n"
+	dataI := "\tdeep Deep\n\tdone bool\n\tval  uint64\n"
+	syncO := "\tmu    *sync.Mutex\n\tcond  *sync.Cond\n\twg    *sync.WaitGroup\n"
+	dataO := "\tinner Inner\n\tip    *Inner\n\tn     uint64\n"
+	deep := "\tmu *sync.Mutex\n\tk  uint64\n"
+	inner, outer := syncI+dataI, syncO+dataO
+	switch layout % 4 {
+	case 1:
+		inner, deep = dataI+syncI, "\tk  uint64\n\tmu *sync.Mutex\n"
+	case 2:
+		outer = dataO + syncO
+	case 3:
+		inner, outer, deep = "\tdone bool\n"+syncI+"\tdeep Deep\n\tval  uint64\n", "\tn     uint64\n\tinner Inner\n"+syncO+"\tip    *Inner\n", "\tk  uint64\n\tmu *sync.Mutex\n"
+	}
+	b.WriteString("type Deep struct {\n" + deep + "}\n\ntype Inner struct {\n" + inner + "}\n\ntype Outer struct {\n" + outer + "}\n\n")
+	b.WriteString(`func mkInner() Inner {
+	mu := new(sync.Mutex)
+	return Inner{mu: mu, cond: sync.NewCond(mu), wg: new(sync.WaitGroup), deep: Deep{mu: new(sync.Mutex)}}
+}
+
+func mkInnerPtr() *Inner {
+	mu := new(sync.Mutex)
+	return &Inner{mu: mu, cond: sync.NewCond(mu), wg: new(sync.WaitGroup), deep: Deep{mu: new(sync.Mutex)}}
+}
+
+func mkOuter() *Outer {
+	mu := new(sync.Mutex)
+	return &Outer{mu: mu, cond: sync.NewCond(mu), wg: new(sync.WaitGroup), inner: mkInner(), ip: mkInnerPtr()}
+}
+
+func lockOf(p *Outer) *sync.Mutex {
+	return p.inner.mu
+}
+
+func (p *Outer) innerLock() *sync.Mutex {
+	return p.ip.mu
+}
+
+func (in *Inner) bump(d uint64) {
+	in.mu.Lock()
+	in.val = in.val + d
+	in.mu.Unlock()
+}
+
+`)
+	cp := &ConcPackage{Package: &Package{Name: name, Features: map[string]int{}}, Info: map[string]ConcCase{}, MayReject: true}
+	add := func(tmpl, body string) {
+		cn := fmt.Sprintf("case_p%d", len(cp.Cases))
+		fmt.Fprintf(&b, "func %s() uint64 {\n%s}\n\n", cn, body)
+		cp.Cases = append(cp.Cases, cn)
+		cp.Info[cn] = ConcCase{Name: cn, Det: true, Tmpl: "path-" + tmpl}
+		cp.Features["conc-path-"+tmpl]++
+	}
+	// the spawner holds p.mu across the join; the thread takes the lock reached through PATH
+	mutexProg := func(setup, path string) string {
+		return "\tp := mkOuter()\n" + setup + "\tjoin := new(sync.WaitGroup)\n\tjoin.Add(1)\n\tp.mu.Lock()\n\tgo func() {\n\t\t" + path + ".Lock()\n\t\tp.n = p.n + 7\n\t\t" + path + ".Unlock()\n\t\tjoin.Done()\n\t}()\n\tjoin.Wait()\n\tr := p.n\n\tp.mu.Unlock()\n\treturn r\n"
+	}
+	add("mutex-value-field", mutexProg("", "p.inner.mu"))
+	add("mutex-pointer-field", mutexProg("", "p.ip.mu"))
+	add("mutex-three-levels", mutexProg("", "p.inner.deep.mu"))
+	add("mutex-three-levels-through-pointer", mutexProg("", "p.ip.deep.mu"))
+	add("mutex-slice-element", mutexProg("\tlocks := make([]*sync.Mutex, 3)\n\tlocks[0] = p.mu\n\tlocks[1] = new(sync.Mutex)\n\tlocks[2] = p.mu\n", "locks[1]"))
+	add("mutex-map-element", mutexProg("\tbyKey := make(map[uint64]*sync.Mutex)\n\tbyKey[1] = p.mu\n\tbyKey[7] = new(sync.Mutex)\n", "byKey[7]"))
+	add("mutex-function-result", mutexProg("", "lockOf(p)"))
+	add("mutex-method-result", mutexProg("", "p.innerLock()"))
+	add("mutex-pointer-to-pointer", mutexProg("\tpp := new(*Outer)\n\t*pp = p\n", "(*pp).inner.mu"))
+	add("mutex-alias-local", mutexProg("\tq := p.ip\n", "q.mu"))
+	add("mutex-struct-value-copy", mutexProg("\tin := p.inner\n", "in.mu"))
+	add("mutex-var-struct-value", mutexProg("\tvar in Inner\n\tin = p.inner\n", "in.mu"))
+	add("mutex-method-on-value-field", "\tp := mkOuter()\n\tjoin := new(sync.WaitGroup)\n\tjoin.Add(1)\n\tp.mu.Lock()\n\tgo func() {\n\t\tp.ip.bump(7)\n\t\tp.ip.bump(1)\n\t\tjoin.Done()\n\t}()\n\tjoin.Wait()\n\tr := p.ip.val\n\tp.mu.Unlock()\n\treturn r\n")
+	// wait groups through paths: the outer group stays armed (never waited on), the inner one joins
+	wgProg := func(setup, path string) string {
+		return "\tp := mkOuter()\n" + setup + "\tp.wg.Add(1)\n\t" + path + ".Add(2)\n\tfor i := uint64(0); i < 2; i++ {\n\t\tk := i + 3\n\t\tgo func() {\n\t\t\tp.mu.Lock()\n\t\t\tp.n = p.n + k\n\t\t\tp.mu.Unlock()\n\t\t\t" + path + ".Done()\n\t\t}()\n\t}\n\t" + path + ".Wait()\n\tp.mu.Lock()\n\tr := p.n\n\tp.mu.Unlock()\n\tp.wg.Done()\n\treturn r\n"
+	}
+	add("waitgroup-value-field", wgProg("", "p.inner.wg"))
+	add("waitgroup-pointer-field", wgProg("", "p.ip.wg"))
+	add("waitgroup-alias-local", wgProg("\tq := p.ip\n", "q.wg"))
+	add("waitgroup-slice-element", wgProg("\tgroups := make([]*sync.WaitGroup, 2)\n\tgroups[0] = p.wg\n\tgroups[1] = new(sync.WaitGroup)\n", "groups[1]"))
+	// condition variables through paths: the waiter waits on the inner cond under the inner lock
+	condProg := func(setup, obj string) string {
+		return "\tp := mkOuter()\n" + setup + "\tgo func() {\n\t\t" + obj + ".mu.Lock()\n\t\t" + obj + ".val = 9\n\t\t" + obj + ".done = true\n\t\t" + obj + ".cond.Broadcast()\n\t\t" + obj + ".mu.Unlock()\n\t}()\n\t" + obj + ".mu.Lock()\n\tfor !" + obj + ".done {\n\t\t" + obj + ".cond.Wait()\n\t}\n\tr := " + obj + ".val\n\t" + obj + ".mu.Unlock()\n\treturn r\n"
+	}
+	add("cond-pointer-field", condProg("", "p.ip"))
+	add("cond-alias-local", condProg("\tq := p.ip\n", "q"))
+	cp.Source = b.String()
+	return cp
+}
